@@ -412,6 +412,16 @@ Run run_once(const Config& cfg, const std::vector<std::string>& toks)
                 utap_debug = 1;
                 parse_XTA(buf.c_str(), &b, cfg.newxta, (xta_part_t)cfg.part, "");
                 utap_debug = 0;
+            } else if (cfg.builder == "doc") {
+                // the document builder on its own, not driven by the XML reader: no template, edge or instance line is open
+                DocumentBuilder b(*doc);
+                if (cfg.newxta)
+                    parse_XTA(utap_builtin_declarations(), &b, true, S_DECLARATION, "");
+                g_obs.builder = &b;
+                g_trace_sink = &g_obs;
+                utap_debug = 1;
+                parse_XTA(buf.c_str(), &b, cfg.newxta, (xta_part_t)cfg.part, "");
+                utap_debug = 0;
             } else {
                 ExpressionBuilder b(*doc);
                 g_obs.builder = &b;
